@@ -85,13 +85,20 @@ type dirEntry struct {
 	note     string
 }
 
+type contentHash struct {
+	h uint64
+	n int
+}
+
 type dirSim struct {
-	t      *sim.T
-	root   string // scratch root (contains "d" = the directory under test, "x" = link targets)
-	dir    string
-	ents   []*dirEntry // sorted by name
-	cache  map[uint64]string
-	events []string
+	hashes  map[*byte]contentHash
+	variant int // index into c19Variants: the configuration under which yields are explained
+	t       *sim.T
+	root    string // scratch root (contains "d" = the directory under test, "x" = link targets)
+	dir     string
+	ents    []*dirEntry // sorted by name
+	cache   map[uint64]string
+	events  []string
 }
 
 var scratchBase string
@@ -131,16 +138,43 @@ func sourceOpts() *gtfs.ParseRealtimeOptions {
 
 const skipOutcome = "<skip>"
 
+// The property fixes which files are yielded, in which order and how often, not the options the source
+// parses them with. What a file may yield is therefore its parse under the options the source uses
+// today or under any other bundled trips configuration / timezone (outcomeSet); the reference journal is
+// built with the configuration that explained the yields.
+var c19Variants = func() []ExtSpec {
+	out := []ExtSpec{{Kind: 2, Trips: nycttrips.ExtensionOpts{FilterStaleUnassignedTrips: true}}}
+	for _, tz := range []int{0, 2, 1} {
+		for _, f := range []bool{true, false} {
+			for _, p := range []bool{false, true} {
+				out = append(out, ExtSpec{Kind: 2, TZ: tz, Trips: nycttrips.ExtensionOpts{FilterStaleUnassignedTrips: f, PreserveMTrainPlatformsInBushwick: p}})
+			}
+		}
+		out = append(out, ExtSpec{Kind: 0, TZ: tz})
+	}
+	return out
+}()
+
 // outcome is what reading+parsing the given state yields: skipOutcome or the dump of the parse.
 func (d *dirSim) outcome(isFile bool, data []byte) string {
 	if !isFile {
 		return skipOutcome
 	}
-	h := sim.HashBytes(data)
+	// content hashes are memoised by slice identity (images are never modified in place by the harness)
+	var key *byte
+	if len(data) > 0 {
+		key = &data[0]
+	}
+	ch, ok := d.hashes[key]
+	if !ok || ch.n != len(data) {
+		ch = contentHash{sim.HashBytes(data), len(data)}
+		d.hashes[key] = ch
+	}
+	h := ch.h ^ uint64(d.variant+1)*0x9e3779b97f4a7c15
 	if o, ok := d.cache[h]; ok {
 		return o
 	}
-	r, err, pv, _ := parseRT(append([]byte(nil), data...), sourceOpts())
+	r, err, pv, _ := parseRT(append([]byte(nil), data...), c19Variants[d.variant].Fresh())
 	o := skipOutcome
 	if pv == nil && err == nil {
 		o = sim.Dump(r, SortNorm)
@@ -275,7 +309,9 @@ type c19Tee struct {
 	extraGen  [][]byte
 	done      bool
 	// stallBefore-1 is the call before which the consumer stalls for more than a second (0: never)
-	stallBefore int
+	stallBefore  int
+	hyps         []*c19Hyp
+	variantNoted bool
 }
 
 func (tee *c19Tee) fail(class, sig, detail string) {
@@ -362,10 +398,20 @@ func (tee *c19Tee) bytesFor(e *dirEntry, got string) []byte {
 	return e.preData
 }
 
+// c19Hyp is one hypothesis about the parse configuration the source uses (an index into c19Variants)
+// together with the set of positions the source may be at under it.
+type c19Hyp struct {
+	variant   int
+	positions []int
+	yielded   [][]byte
+	done      bool
+	fail      *sim.Violation
+}
+
 // Next matches what the real source returns against the reference model. Because two entries may
 // hold images with identical parses and because an entry modified in place may legitimately yield or
-// skip, the model tracks the *set* of positions the source may be at (NFA style) and raises an alarm
-// only when no hypothesis explains the observation.
+// skip, the model tracks the *set* of positions the source may be at (NFA style), once per candidate
+// parse configuration, and raises an alarm only when no hypothesis explains the observations.
 func (tee *c19Tee) Next() *gtfs.Realtime {
 	d := tee.d
 	tee.applyFaults()
@@ -387,13 +433,68 @@ func (tee *c19Tee) Next() *gtfs.Realtime {
 	if tee.v != nil {
 		return nil
 	}
-	if tee.positions == nil {
-		tee.positions = []int{0}
+	if tee.hyps == nil {
+		for v := range c19Variants {
+			tee.hyps = append(tee.hyps, &c19Hyp{variant: v, positions: []int{0}})
+		}
+	}
+	got := ""
+	if r != nil {
+		got = sim.Dump(r, SortNorm)
+	}
+	var alive []*c19Hyp
+	logged := false
+	for _, h := range tee.hyps {
+		d.variant = h.variant
+		name := tee.observe(h, r, got, call)
+		if h.fail == nil {
+			alive = append(alive, h)
+			if !logged {
+				d.t.Logf("Next#%d -> %s", call, name)
+				logged = true
+			}
+		}
+	}
+	if len(alive) == 0 {
+		// report what contradicts the configuration the source documents (variant 0)
+		tee.v = tee.hyps[0].fail
+		d.variant = 0
+		return r
+	}
+	if len(alive) < len(tee.hyps) && alive[0].variant != 0 && !tee.variantNoted {
+		tee.variantNoted = true
+		d.t.Probe("yields-explained-by-another-parse-configuration")
+	}
+	tee.hyps = alive
+	d.variant = alive[0].variant
+	minPos := len(d.ents)
+	for _, h := range alive {
+		if h.positions[0] < minPos {
+			minPos = h.positions[0]
+		}
+	}
+	for i := tee.pos; i < minPos; i++ {
+		if e := d.ents[i]; e.note != "" {
+			d.t.Probe("fault-fired:" + e.note)
+		}
+	}
+	tee.pos = minPos
+	tee.done = alive[0].done
+	tee.yielded = alive[0].yielded
+	return r
+}
+
+// observe updates hypothesis h with one observation (r == nil: end of stream). It returns a short
+// description for the event log and sets h.fail when the observation contradicts h.
+func (tee *c19Tee) observe(h *c19Hyp, r *gtfs.Realtime, got string, call int) string {
+	d := tee.d
+	failf := func(class, sig, detail string) {
+		h.fail = &sim.Violation{Class: class, Signature: "C19:" + sig, Detail: detail}
 	}
 	if r == nil {
 		ok := false
 		var blocker *dirEntry
-		for _, p := range tee.positions {
+		for _, p := range h.positions {
 			fine := true
 			for i := p; i < len(d.ents); i++ {
 				if !tee.maySkip(d.ents[i]) {
@@ -408,28 +509,21 @@ func (tee *c19Tee) Next() *gtfs.Realtime {
 			}
 		}
 		if !ok {
-			tee.fail("stream-ended-early", "ended-early", fmt.Sprintf("Next#%d returned nil but %q (%s) is readable and parseable and was never yielded", call, blocker.name, entKindNames[blocker.kind]))
+			failf("stream-ended-early", "ended-early", fmt.Sprintf("Next#%d returned nil but %q (%s) is readable and parseable and was never yielded", call, blocker.name, entKindNames[blocker.kind]))
+			return "nil"
 		}
-		for i := tee.pos; i < len(d.ents); i++ {
-			if e := d.ents[i]; e.note != "" {
-				d.t.Probe("fault-fired:" + e.note)
-			}
-		}
-		tee.positions = []int{len(d.ents)}
-		tee.pos = len(d.ents)
-		tee.done = true
-		d.t.Logf("Next#%d -> nil", call)
-		return nil
+		h.positions = []int{len(d.ents)}
+		h.done = true
+		return "nil"
 	}
-	if tee.done {
-		tee.fail("not-ended", "value-after-end", fmt.Sprintf("Next#%d returned a value after the stream had ended", call))
-		return r
+	if h.done {
+		failf("not-ended", "value-after-end", fmt.Sprintf("Next#%d returned a value after the stream had ended", call))
+		return "value"
 	}
-	got := sim.Dump(r, SortNorm)
 	nextSet := map[int]bool{}
 	var matched *dirEntry
 	var must *dirEntry
-	for _, p := range tee.positions {
+	for _, p := range h.positions {
 		for i := p; i < len(d.ents); i++ {
 			e := d.ents[i]
 			al := d.allowed(e)
@@ -449,7 +543,7 @@ func (tee *c19Tee) Next() *gtfs.Realtime {
 	}
 	if len(nextSet) == 0 {
 		sig, class := "unexpected-value", "unexpected"
-		minPos := tee.positions[0]
+		minPos := h.positions[0]
 		for j := 0; j < len(d.ents); j++ {
 			if contains(d.allowed(d.ents[j]), got) {
 				if j < minPos {
@@ -464,30 +558,26 @@ func (tee *c19Tee) Next() *gtfs.Realtime {
 		if must != nil {
 			detail = fmt.Sprintf("Next#%d should have yielded %q (%s) but yielded something else (%s)", call, must.name, entKindNames[must.kind], sig)
 		}
-		tee.fail(class, sig, detail)
-		return r
+		failf(class, sig, detail)
+		return "value"
 	}
-	tee.positions = tee.positions[:0]
+	h.positions = h.positions[:0]
 	for p := range nextSet {
-		tee.positions = append(tee.positions, p)
+		h.positions = append(h.positions, p)
 	}
-	sort.Ints(tee.positions)
-	for i := tee.pos; i < tee.positions[0]; i++ {
-		if e := d.ents[i]; e.note != "" {
-			d.t.Probe("fault-fired:" + e.note)
-		}
-	}
-	tee.pos = tee.positions[0]
-	if len(tee.positions) > 1 {
+	sort.Ints(h.positions)
+	if len(h.positions) > 1 {
 		d.t.Probe("ambiguous-position")
 	}
-	tee.yielded = append(tee.yielded, tee.bytesFor(matched, got))
-	d.t.Logf("Next#%d -> %q (%s)", call, matched.name, entKindNames[matched.kind])
-	return r
+	h.yielded = append(h.yielded, tee.bytesFor(matched, got))
+	return fmt.Sprintf("%q (%s)", matched.name, entKindNames[matched.kind])
 }
 
 // c19Case is a generated base directory.
 type c19Case struct {
+	// outcome caches shared by every directory materialised from this case (enumerated variants)
+	cache     map[uint64]string
+	hashes    map[*byte]contentHash
 	dirName   string // name of the directory under test ("" = "d")
 	decoyName string
 	good      [][]byte
@@ -622,7 +712,10 @@ func runC19Once(t *sim.T, c *c19Case, plan c19Plan, extraCalls int, log bool) *s
 	if c.dirName != "" {
 		dirName = c.dirName
 	}
-	d := &dirSim{t: t, root: root, dir: filepath.Join(root, dirName), cache: map[uint64]string{}}
+	if c.cache == nil {
+		c.cache, c.hashes = map[uint64]string{}, map[*byte]contentHash{}
+	}
+	d := &dirSim{t: t, root: root, dir: filepath.Join(root, dirName), cache: c.cache, hashes: c.hashes}
 	if err := os.MkdirAll(d.dir, 0o755); err != nil {
 		panic("harness: " + err.Error())
 	}
@@ -704,7 +797,7 @@ func runC19Once(t *sim.T, c *c19Case, plan c19Plan, extraCalls int, log bool) *s
 	// reference journal from the good files alone
 	ref := &sliceSource{}
 	for _, b := range tee.yielded {
-		r, err, pv2, _ := parseRT(append([]byte(nil), b...), sourceOpts())
+		r, err, pv2, _ := parseRT(append([]byte(nil), b...), c19Variants[d.variant].Fresh())
 		if pv2 != nil || err != nil {
 			return &sim.Violation{Class: "harness", Signature: "C19:harness-reference-parse", Detail: "reference parse of a yielded image failed"}
 		}
@@ -773,7 +866,7 @@ func runC19CLI(t *sim.T, c *c19Case) *sim.Violation {
 	}
 	dirSeq++
 	root := filepath.Join(ScratchBase(), fmt.Sprintf("cli%d", dirSeq))
-	d := &dirSim{t: t, root: root, dir: filepath.Join(root, "d"), cache: map[uint64]string{}}
+	d := &dirSim{t: t, root: root, dir: filepath.Join(root, "d"), cache: map[uint64]string{}, hashes: map[*byte]contentHash{}}
 	outDir := filepath.Join(root, "out")
 	for _, p := range []string{d.dir, filepath.Join(root, "x"), outDir} {
 		if err := os.MkdirAll(p, 0o755); err != nil {
@@ -793,21 +886,30 @@ func runC19CLI(t *sim.T, c *c19Case) *sim.Violation {
 		d.ents = append(d.ents, &e)
 	}
 	sort.Slice(d.ents, func(a, b int) bool { return d.ents[a].name < d.ents[b].name })
-	ref := &sliceSource{}
-	for _, e := range d.ents {
-		if !e.isFile {
-			continue
+	// one reference per candidate parse configuration (see c19Variants); the command's output must
+	// equal the export of at least one of them
+	refs := make([]*sliceSource, len(c19Variants))
+	nGoodFiles := 0
+	for v := range c19Variants {
+		refs[v] = &sliceSource{}
+		for _, e := range d.ents {
+			if !e.isFile {
+				continue
+			}
+			r, err, pv, _ := parseRT(append([]byte(nil), e.data...), c19Variants[v].Fresh())
+			if pv == nil && err == nil {
+				refs[v].items = append(refs[v].items, r)
+			}
 		}
-		r, err, pv, _ := parseRT(append([]byte(nil), e.data...), sourceOpts())
-		if pv == nil && err == nil {
-			ref.items = append(ref.items, r)
+		if v == 0 {
+			nGoodFiles = len(refs[v].items)
 		}
 	}
 	// the command's window is [1970-01-01, the moment it runs]: the reference uses the same window, taken
 	// just before and just after the sub-process; if the two references differ (a trip starts in
 	// between) the comparison is skipped
-	export := func(end time.Time) (*journal.CsvExport, bool) {
-		src := &sliceSource{items: ref.items}
+	export := func(v int, end time.Time) (*journal.CsvExport, bool) {
+		src := &sliceSource{items: refs[v].items}
 		var jr *journal.Journal
 		pv, _ := guard(func() { jr = journal.BuildJournal(src, time.Unix(0, 0), end) })
 		if pv != nil {
@@ -819,16 +921,22 @@ func runC19CLI(t *sim.T, c *c19Case) *sim.Violation {
 		}
 		return e, true
 	}
-	want, ok := export(time.Now())
-	if !ok {
-		return nil
+	wants := make([]*journal.CsvExport, len(c19Variants))
+	for v := range c19Variants {
+		w, ok := export(v, time.Now())
+		if !ok {
+			return nil
+		}
+		wants[v] = w
 	}
 	cmd := exec.Command(cli, "journal", "-o", outDir, d.dir)
 	out, err := cmd.CombinedOutput()
 	t.Probe("cli-run")
-	if want2, ok2 := export(time.Now()); !ok2 || !bytes.Equal(want.TripsCsv, want2.TripsCsv) || !bytes.Equal(want.StopTimesCsv, want2.StopTimesCsv) {
-		t.Probe("cli-window-moved-skip")
-		return nil
+	for v := range c19Variants {
+		if want2, ok2 := export(v, time.Now()); !ok2 || !bytes.Equal(wants[v].TripsCsv, want2.TripsCsv) || !bytes.Equal(wants[v].StopTimesCsv, want2.StopTimesCsv) {
+			t.Probe("cli-window-moved-skip")
+			return nil
+		}
 	}
 	if err != nil {
 		return &sim.Violation{Class: "cli", Signature: "C19:cli-failed", Detail: fmt.Sprintf("gtfs journal failed on a directory with %d entries: %v: %s", len(d.ents), err, sim.Clip(string(out), 400))}
@@ -838,8 +946,15 @@ func runC19CLI(t *sim.T, c *c19Case) *sim.Violation {
 	if e1 != nil || e2 != nil {
 		return &sim.Violation{Class: "cli", Signature: "C19:cli-no-output", Detail: "gtfs journal did not write its CSV files"}
 	}
-	if !bytes.Equal(gotTrips, want.TripsCsv) || !bytes.Equal(gotStops, want.StopTimesCsv) {
-		return &sim.Violation{Class: "cli", Signature: "C19:cli-export-differs", Detail: fmt.Sprintf("the CSV files written by `gtfs journal` differ from the export of the journal built from the directory's good files (%d entries, %d good)", len(d.ents), len(ref.items))}
+	matchAny := false
+	for v := range c19Variants {
+		if bytes.Equal(gotTrips, wants[v].TripsCsv) && bytes.Equal(gotStops, wants[v].StopTimesCsv) {
+			matchAny = true
+			break
+		}
+	}
+	if !matchAny {
+		return &sim.Violation{Class: "cli", Signature: "C19:cli-export-differs", Detail: fmt.Sprintf("the CSV files written by `gtfs journal` differ from the export of the journal built from the directory's good files (%d entries, %d good)", len(d.ents), nGoodFiles)}
 	}
 	return nil
 }
@@ -922,7 +1037,10 @@ func runC19(t *sim.T, tier string) *sim.Violation {
 			if c.entries[i].kind == k {
 				continue
 			}
-			c2 := &c19Case{good: c.good, extra: c.extra, entries: append([]dirEntry(nil), c.entries...)}
+			if c.cache == nil {
+				c.cache, c.hashes = map[uint64]string{}, map[*byte]contentHash{}
+			}
+			c2 := &c19Case{good: c.good, extra: c.extra, entries: append([]dirEntry(nil), c.entries...), cache: c.cache, hashes: c.hashes, dirName: c.dirName, decoyName: c.decoyName}
 			e := &c2.entries[i]
 			src := c.extra[0]
 			if e.kind == kGood {
